@@ -579,15 +579,19 @@ func Main(cfg Config) {
 	// Once the run has failed there is no point in collecting hundreds of further failing
 	// histories (a broken implementation can make each of them slow): stop generating after
 	// maxFailing failing histories or when the wall-clock budget of the tier is used up.
-	const maxFailing = 12
+	// A disagreement whose trace the monitor accepts is not yet a failing input of the property:
+	// keep searching for a concrete one (a later history may show the violation itself), but not
+	// without bound.
+	const maxViolating = 6
+	const maxFailing = 60
 	wallBudget := map[string]time.Duration{"quick": 6 * time.Minute, "thorough": 100 * time.Minute}[*tier]
 	if wallBudget == 0 {
 		wallBudget = 6 * time.Minute
 	}
 	stopped := ""
 	for _, w := range work {
-		if len(res.Violations)+len(res.Disagreements) >= maxFailing {
-			stopped = fmt.Sprintf("stopped after %d failing histories", maxFailing)
+		if len(res.Violations) >= maxViolating || len(res.Violations)+len(res.Disagreements) >= maxFailing {
+			stopped = fmt.Sprintf("stopped after %d violating and %d disagreeing histories", len(res.Violations), len(res.Disagreements))
 			break
 		}
 		if time.Since(start) > wallBudget {
